@@ -13,7 +13,7 @@ import opendsm.eemeter.models.daily.model as dm
 from opendsm.eemeter.models.billing.model import BillingModel
 from symv import engine as E
 from symv.case import Case
-from symv.proxies import SReal, lift, model_env, to_real, NAN
+from symv.proxies import SReal, lift, model_env, to_real, NAN, real
 from symv.symarray import SymArray, cells
 
 from . import dailyframe as F
@@ -57,7 +57,7 @@ def cases(tier, seed):
         out = [f"{lay}/{ik}/2" for lay in ("single-v", "wdwe", "season") for ik in ("pacific-dst", "gap")]
         out += ["single/pacific-dst/3", "single/unsorted/3"]
         out += ["billing-agg/flat/3", "billing-agg/v/2"]
-    out += ["history/wdwe-flat/5", "history/season/5", "dataclass/daily/elec", "hourly/standardscaler/x", "hourly/robustscaler/x"]
+    out += ["history/wdwe-flat/5", "history/season/5", "dataclass/daily/elec", "dataclass/daily/dup", "hourly-data/gaps/x", "hourly/standardscaler/x", "hourly/robustscaler/x"]
     return out
 
 
@@ -125,8 +125,10 @@ def run_case(case: Case, name: str):
     lay, ik, n = name.split("/")
     if lay == "history":
         return run_history(case, ik, int(n))
+    if lay == "hourly-data":
+        return run_hourly_data(case)
     if lay == "dataclass":
-        return run_dataclass(case)
+        return run_dataclass_dup(case) if n == "dup" else run_dataclass(case)
     if lay == "hourly":
         return run_hourly(case, ik)
     n = int(n)
@@ -473,3 +475,147 @@ def run_hourly(case, scaling):
 REPLAY["hourly"] = replay_hourly
 REPLAY["history"] = replay_history
 REPLAY["dataclass"] = replay_dataclass
+
+
+# hourly data class: the weather columns it hands to the model (filled temperature gaps included) must not depend on
+# how much usage the reporting period carries.  Values are concrete (the interpolation is masked-array code); the usage
+# variant, the gap layout and the period length are solver-chosen finite choices.
+HD_USAGE = ["absent", "all-missing", "first-3-days", "every-other-day", "full", "full-doubled"]
+HD_GAPS = {"short": [(30, 33), (100, 102)], "long": [(40, 75)], "edge": [(0, 5), (200, 215)]}
+
+
+def _hourly_data_frame(days, gaps, usage):
+    from . import hourlyref as H
+    df = H.weather("2021-06-01", days, usage=True)
+    for a, b in HD_GAPS[gaps]:
+        df.iloc[a:b, df.columns.get_loc("temperature")] = np.nan
+    n = len(df)
+    if usage == "absent":
+        df = df.drop(columns=["observed"])
+    elif usage == "all-missing":
+        df["observed"] = np.nan
+    elif usage == "first-3-days":
+        df.iloc[72:, df.columns.get_loc("observed")] = np.nan
+    elif usage == "every-other-day":
+        df.loc[(np.arange(n) // 24) % 2 == 1, "observed"] = np.nan
+    elif usage == "full-doubled":
+        df["observed"] = df["observed"] * 2
+    return df
+
+
+def replay_hourly_data(inp):
+    import logging
+    logging.disable(logging.CRITICAL)
+    from opendsm.eemeter.models.hourly.data import HourlyReportingData
+    from . import hourlyref as H
+    ref = HourlyReportingData(_hourly_data_frame(inp["days"], inp["gaps"], "absent"), is_electricity_data=True)
+    alt = HourlyReportingData(_hourly_data_frame(inp["days"], inp["gaps"], inp["usage"]), is_electricity_data=True)
+    pr = []
+    a, b = ref.df, alt.df
+    if list(a.index) != list(b.index):
+        pr.append(f"rows differ ({len(a)} vs {len(b)})")
+    else:
+        for c in ("temperature", "interpolated_temperature"):
+            x, y = a[c].to_numpy(dtype=float), b[c].to_numpy(dtype=float)
+            bad = [i for i in range(len(x)) if not ((x[i] != x[i] and y[i] != y[i]) or x[i] == y[i])]
+            if bad:
+                pr.append(f"{c}: {len(bad)} hours differ between the usage-free frame and usage '{inp['usage']}', e.g. {a.index[bad[0]]}: {x[bad[0]]} vs {y[bad[0]]}")
+        if not pr:
+            m = H.model()
+            pa, pb = m.predict(ref)["predicted"].to_numpy(dtype=float), H.model().predict(alt)["predicted"].to_numpy(dtype=float)
+            bad = [i for i in range(len(pa)) if not ((pa[i] != pa[i] and pb[i] != pb[i]) or pa[i] == pb[i])]
+            if bad:
+                pr.append(f"{len(bad)} hourly predictions differ, e.g. {a.index[bad[0]]}: {pa[bad[0]]} vs {pb[bad[0]]}")
+    return bool(pr), "; ".join(pr[:3])
+
+
+REPLAY["hourly_data"] = replay_hourly_data
+
+
+def run_hourly_data(case):
+    case.inputs = []
+
+    def run():
+        inp = dict(days=F.choose("days", [6, 12]), gaps=F.choose("gaps", list(HD_GAPS)), usage=F.choose("usage", HD_USAGE[1:]))
+        return inp, replay_hourly_data(inp)
+
+    paths = case.explore(run)
+    for p in paths:
+        if p.outcome != "ret":
+            case.rep["harness_errors"].append(f"hourly data class scenario raised {p.value!r}")
+            continue
+        inp, (bad, det) = p.value
+        if not case.ground(not bad, "hourly data class: filled temperatures (and the predictions from them) do not depend on the usage the period carries"):
+            case.violation("hourly data class: filled temperatures (and the predictions from them) do not depend on the usage the period carries", "hourly_data", inp, det)
+        case.regime("hourly feed with a temperature gap and little usage", inp["usage"] in ("all-missing", "first-3-days"))
+    case.sample(dict(entry="HourlyReportingData", scenarios=len(paths)))
+
+
+# a timestamp delivered twice (CalTRACK 2.3.2.2 keeps the first record): which record's temperature survives must not
+# depend on the usage readings of the two records
+DUP_N, DUP_AT = 48, 10
+
+
+def _dup_frame(sym, env, ostates, prefix):
+    from . import dataclass as D
+    from opendsm.eemeter.models.daily.data import DailyReportingData
+    idx = pd.date_range("2021-06-01", periods=DUP_N, freq="h", tz="US/Pacific")
+    idx = idx.insert(DUP_AT + 1, idx[DUP_AT])
+    def cell(name, nan=False):
+        if nan:
+            return NAN if sym else np.nan
+        return real(name) if sym else float(env.get(name, 1.0))
+    T = [cell(f"T{i}") for i in range(DUP_N)]
+    T.insert(DUP_AT + 1, cell("Td"))
+    o = [cell(f"{prefix}{i}", nan=(i == DUP_AT and ostates[0] == "nan")) for i in range(DUP_N)]
+    o.insert(DUP_AT + 1, cell(f"{prefix}d", nan=(ostates[1] == "nan")))
+    frame = pd.DataFrame({"observed": SymArray(o) if sym else np.array(o, dtype=float), "temperature": SymArray(T) if sym else np.array(T, dtype=float)}, index=idx)
+    return DailyReportingData(frame, is_electricity_data=False).df
+
+
+def replay_dataclass_dup(inp):
+    import logging
+    logging.disable(logging.CRITICAL)
+    env = inp["env"]
+    d1, d2 = _dup_frame(False, env, inp["os"], "o"), _dup_frame(False, env, inp["qs"], "q")
+    pr = []
+    if list(d1.index) != list(d2.index):
+        pr.append("days differ between the two usage columns")
+    for t in d1.index.intersection(d2.index):
+        x, y = d1.loc[t, "temperature"], d2.loc[t, "temperature"]
+        if not ((x != x and y != y) or x == y):
+            pr.append(f"{t.date()}: daily temperature {x} with usage states {inp['os']} at the duplicated timestamp vs {y} with {inp['qs']}")
+    return bool(pr), "; ".join(pr[:3])
+
+
+REPLAY["dataclass_dup"] = replay_dataclass_dup
+
+
+def run_dataclass_dup(case):
+    from . import dataclass as D
+    names = [f"T{i}" for i in range(DUP_N)] + ["Td"] + [f"o{i}" for i in range(DUP_N)] + ["od"] + [f"q{i}" for i in range(DUP_N)] + ["qd"]
+    case.inputs = [z3.Real(x) for x in names]
+
+    def run():
+        os_ = [F.choose("o_first", ["val", "nan"]), F.choose("o_second", ["val", "nan"])]
+        qs_ = [F.choose("q_first", ["val", "nan"]), F.choose("q_second", ["val", "nan"])]
+        return os_, qs_, _dup_frame(True, None, os_, "o"), _dup_frame(True, None, qs_, "q")
+
+    with D.symbolic_dataclasses():
+        paths = case.explore(run)
+    for p in paths:
+        if p.outcome != "ret":
+            case.rep["harness_errors"].append(f"data class raised {p.value!r}")
+            continue
+        os_, qs_, d1, d2 = p.value
+        rp = ("dataclass_dup", (lambda a, b: lambda mdl: dict(os=a, qs=b, env=model_env(mdl, case.inputs)))(os_, qs_))
+        case.twin(p)
+        eqs = [z3.BoolVal(list(d1.index) == list(d2.index))]
+        X, Y = dict(zip(d1.index, cells(d1["temperature"]))), dict(zip(d2.index, cells(d2["temperature"])))
+        for t in d1.index:
+            if t in Y:
+                eqs.append(to_real(lift(X[t])) == to_real(lift(Y[t])) if F.finite(X[t]) and F.finite(Y[t]) else z3.BoolVal(F.finite(X[t]) == F.finite(Y[t])))
+        case.prove(p, z3.And(*eqs), "daily temperature does not depend on the usage readings of a timestamp that was delivered twice", replay=rp)
+        case.regime("duplicated timestamp: first record without usage, second with", os_ == ["nan", "val"] or qs_ == ["nan", "val"])
+    case.sample(dict(feed="hourly gas, 48 rows + one duplicated timestamp", paths=len(paths)))
+
